@@ -1,6 +1,6 @@
 import Ecal.Drivers.Util
 import Ecal.Model.Expr
-import Ecal.Model.Lexer
+import Ecal.Model.ExprLex
 import Ecal.Gen.C03
 /-!
 Driver of C03. Payload (space separated), see `go/cmd/harness/c03.go`:
@@ -113,12 +113,12 @@ def envVar : Str → Val Float := fun n =>
   else if n = strBytes "b" then .str (strBytes "x")
   else if n = strBytes "c" then .bool true
   else if n = strBytes "d" then .null
-  else if n = strBytes "l" then .list (.cons (.num 1.0) (.cons (.str (strBytes "x")) .nil))
+  else if n = strBytes "l" then .list 1 false (.cons (.num 1.0) (.cons (.str (strBytes "x")) .nil))
   else if n = strBytes "n" then .num (-2.5)
   else if n = strBytes "s" then .str (strBytes "10")
   else if n = strBytes "f" then .bool false
   else if n = strBytes "m" then
-    .list (.cons (.list (.cons (.num 1.0) .nil)) (.cons .null (.cons (.bool true) .nil)))
+    .list 2 false (.cons (.list 3 false (.cons (.num 1.0) .nil)) (.cons .null (.cons (.bool true) .nil)))
   else .null
 
 def cfg (tb : Tables) : Cfg Float where
@@ -167,7 +167,7 @@ def showVal : Val Float → String
   | .bool false => "f"
   | .num x => if x.isNaN then "Nnan" else "N" ++ hex16 x.toBits.toNat
   | .str s => "S" ++ hexEnc s
-  | .list vs => "L(" ++ showVals vs ++ ")"
+  | .list _ _ vs => "L(" ++ showVals vs ++ ")"
 def showVals : Vals Float → String
   | .nil => ""
   | .cons v .nil => showVal v
@@ -193,7 +193,7 @@ def showOut : Out Float → String
 mutual
 def valFloats : Val Float → List Float
   | .num x => [x]
-  | .list vs => valsFloats vs
+  | .list _ _ vs => valsFloats vs
   | _ => []
 def valsFloats : Vals Float → List Float
   | .nil => []
@@ -263,23 +263,27 @@ def canonFText (l : List (Nat × Str)) : List (Nat × Str) :=
 
 /-! ### multi-evaluation cases: one tree, several environments -/
 
-/-- canonical value: `n t f N<16 hex> Nnan S<hex> L(v,…)` -/
-partial def parseVal : List Char → Option (Val Float × List Char)
+/-- canonical value: `n t f N<16 hex> Nnan S<hex> L(v,…) E()`; `base` makes the addresses of the lists of one environment distinct (every list value of an
+    environment is its own slice in the harness; the same variable read twice is the same slice) -/
+partial def parseVal (base : Nat) : List Char → Option (Val Float × List Char)
   | 'N' :: 'n' :: 'a' :: 'n' :: rest => some (.num (0.0 / 0.0), rest)
   | 'N' :: rest =>
     (hexNat (String.ofList (rest.take 16))).map fun b => (.num (Float.ofBits b.toUInt64), rest.drop 16)
   | 'S' :: rest =>
     let h := rest.takeWhile fun c => c != ',' && c != ')' && c != ';'
     (hexDecode (String.ofList h)).map fun bs => (.str bs, rest.drop h.length)
+  | 'E' :: '(' :: ')' :: rest => some (.list (base + rest.length + 1) false .nil, rest)   -- empty, not nil
   | 'L' :: '(' :: rest =>
     let rec go (cs : List Char) (acc : List (Val Float)) : Option (List (Val Float) × List Char) :=
       match cs with
       | ')' :: r => some (acc.reverse, r)
       | ',' :: r => go r acc
-      | cs => match parseVal cs with
+      | cs => match parseVal base cs with
         | some (v, r) => go r (v :: acc)
         | none => none
-    (go rest []).map fun (vs, r) => (.list (vs.foldr Vals.cons .nil), r)
+    (go rest []).map fun (vs, r) =>
+      if vs.isEmpty then (.list 0 true .nil, r)   -- `L()` is the nil slice
+      else (.list (base + rest.length + 1) false (vs.foldr Vals.cons .nil), r)
   | 'n' :: rest => some (.null, rest)
   | 't' :: rest => some (.bool true, rest)
   | 'f' :: rest => some (.bool false, rest)
@@ -287,9 +291,9 @@ partial def parseVal : List Char → Option (Val Float × List Char)
 
 def parseEnv (s : String) : Option (List (Str × Val Float)) :=
   if s = "-" then some [] else
-  (s.splitOn ";").mapM fun b =>
+  ((s.splitOn ";").zipIdx).mapM fun (b, i) =>
     match b.splitOn "=" with
-    | [n, v] => (parseVal v.toList).map fun (x, _) => (strBytes n, x)
+    | [n, v] => (parseVal ((i + 1) * 1000000) v.toList).map fun (x, _) => (strBytes n, x)
     | _ => none
 
 def envCfg (tb : Tables) (env : List (Str × Val Float)) : Cfg Float :=
@@ -299,39 +303,6 @@ def envCfg (tb : Tables) (env : List (Str × Val Float)) : Cfg Float :=
 
 /-! ### tokens: the Lean lexer model (`Ecal.Lex`, tied to lexer.go by C18/C07) on the source —
     the model does not see the output of the real lexer -/
-
-def binOpOfText : String → Option BinOp
-  | ">=" => some .geq | "<=" => some .leq | "!=" => some .neq | "==" => some .eq
-  | ">" => some .gt | "<" => some .lt
-  | "+" => some .plus | "-" => some .minus | "*" => some .times | "/" => some .div
-  | "//" => some .divint | "%" => some .modint
-  | "and" => some .and | "or" => some .or
-  | "like" => some .like | "in" => some .isin | "hasprefix" => some .hasprefix
-  | "hassuffix" => some .hassuffix | "notin" => some .notin | ":=" => some .assign
-  | _ => none
-
-/-- token id → its text in the lexer's symbol / keyword tables -/
-def idText (id : Nat) : Option String :=
-  ((Ecal.Lex.symbolTable ++ Ecal.Lex.keywordTable).find? (·.2 = id)).map (·.1)
-
-/-- `none` for a NUMBER whose float bits were not shipped -/
-def tkOfLex (num : List (Str × Nat)) (t : Ecal.Lex.Tok) : Option TK :=
-  if t.id = Ecal.Lex.tEOF then some .eof
-  else if t.id = Ecal.Lex.tSTRING then some (.atom (.str t.val))
-  else if t.id = Ecal.Lex.tIDENTIFIER then some (.atom (.ident t.val))
-  else if t.id = Ecal.Lex.tNUMBER then (num.find? (·.1 = t.val)).map fun (_, b) => .atom (.num t.val b)
-  else if t.id = Ecal.Lex.tERROR then some (.other (strBytes "ERROR"))
-  else match idText t.id with
-    | some "(" => some .lp | some ")" => some .rp | some "[" => some .lb | some "]" => some .rb
-    | some "," => some .comma
-    | some "not" => some (.not t.val)
-    | some "true" => some (.atom (.tru t.val))
-    | some "false" => some (.atom (.fls t.val))
-    | some "null" => some (.atom (.null t.val))
-    | some s => some (match binOpOfText s with
-                      | some o => .op o t.val
-                      | none => .other (strBytes s))
-    | none => some (.other (strBytes "?"))
 
 def lowerStr (s : Str) : Str := s.map fun c => if 65 ≤ c ∧ c ≤ 90 then c + 32 else c
 
@@ -405,15 +376,14 @@ def runCase (payload : String) : String :=
            | some s => ((s.splitOn ",").mapM hexDecode).map some) with
     | some src, some [c1, c2, c3], some num, some ft, some rx, some envs, some intended =>
       let tb : Tables := { convNaN := c1, convPos := c2, convNeg := c3, ftext := canonFText ft, regex := rx }
-      let lexed := (Ecal.Lex.lex src).toList
-      match lexed.mapM (fun t => (tkOfLex num t).map fun k => LTok.mk k t.line) with
+      match lexTokens num src with
       | none => "MISSING-NUMBER-BITS"
       | some ts =>
         let lexdiff := match intended with
           | some w => !intendedOk w ts
           | none => false
         if lexdiff then "LEXDIFF the lexer model's tokens are not the generator's intended tokens"
-        else if ts.any (fun t => t.tk == .other (strBytes "ERROR")) then "PARSEERR -"
+        else if ts.any (fun t => t.tk == .other errorName) then "PARSEERR -"
         else if ts.any (fun t => match t.tk with | .other _ => true | _ => false) then "UNSUPPORTED other-token"
         else
           match Impl.parseProgram Ecal.Gen.C03.table (ts.length + 1) ts with
